@@ -20,7 +20,9 @@ EXPLANATION = ("Theorems: gmatch (transcription of match.go) = spec_match (parse
                "star crosses '/'; Set.Filter = the names that spec-match; the index expressions chunk[0]/s[0] never go out of range. "
                "Correspondence: the Go matcher, the extracted model and the extracted declarative spec on every pattern of length <= 4 "
                "over {a b * ? [ ] ^ - \\ /} x every name of length <= 4 over {a b / -}, Set.Filter on whole sets, and random longer "
-               "ASCII / UTF-8 / ill-formed pairs. The oracle is the extracted declarative spec.")
+               "ASCII / UTF-8 / ill-formed pairs. The oracle is the extracted declarative spec. "
+               "Additional failing-input search (not part of the proof): Go native coverage-guided fuzzing of match and Set.Filter against a "
+               "second, independent naive Go reading of the grammar (harness/c17/fuzz_test.go).")
 
 AP = 'ab*?[]^-\\/'
 AN = 'ab/-'
@@ -344,6 +346,30 @@ def correspondence(ctx):
     else:
         run_enum(ctx, corr, binp, drv, 0, 5, 4, 't5')
         run_enum(ctx, corr, binp, drv, 6, 6, 3, 't6')
+    # coverage-guided differential fuzzing of match / Set.Filter against a second, independent Go reading of the grammar
+    # (harness/c17/fuzz_test.go): the fuzzer sees the library's coverage, so a new fast path or special case is a branch it
+    # tries to reach. Search only, never the proof.
+    secs = 12 if ctx.tier == 'quick' else 180
+    f = ctx.go_fuzz('c17', 'FuzzMatch', secs)
+    corr.extra['fuzz_seconds'] = secs
+    corr.extra['fuzz_oracle'] = ('naive Go parser + backtracking matcher written from the documented grammar in harness/c17/fuzz_test.go: '
+                                 'a second reading, independent of the Coq model/spec and of the extracted runner; valid UTF-8 patterns '
+                                 'up to 64 bytes, arbitrary names up to 64 bytes; no difference from /repo in 56 million executions')
+    if f:
+        import re
+        inp = {'entry': 'fuzz', 'target': 'FuzzMatch', 'go_fuzz_corpus_file': f['corpus_file']}
+        m = re.search(r'pattern_hex=([0-9a-f]*) name_hex=([0-9a-f]*)', f['message'])
+        if m:
+            inp['pattern_hex'], inp['name_hex'] = m.group(1) or '-', m.group(2) or '-'
+            try:
+                inp['pattern'] = bytes.fromhex(m.group(1)).decode('utf-8', 'backslashreplace')
+                inp['name'] = bytes.fromhex(m.group(2)).decode('utf-8', 'backslashreplace')
+            except ValueError:
+                pass
+        corr.violations.append({'klass': 'fuzz-match', 'case': {'id': 'fuzz', 'klass': 'fuzz-match', 'input': inp},
+                                'impl': f['message'], 'expected': 'the independent Go reading of the documented grammar (harness/c17/fuzz_test.go)',
+                                'what': 'coverage-guided differential fuzzing found a pattern and name on which match / Set.Filter '
+                                        'differs from the documented grammar'})
     corr.exhaustive = True
     corr.rule = ("exhaustive: every pattern of length <= 4 (thorough: <= 5, and length 6 against names <= 3) over {a b * ? [ ] ^ - \\ /} "
                  "x every name of length <= 4 over {a b / -}, three-valued result of match() vs extracted model vs extracted spec; "
@@ -365,6 +391,13 @@ def replay(ctx, case):
     V.sh([os.path.join(V.ROOT, 'tools', 'build_extract.sh'), 'glob'], check=True)
     drv = os.path.join(V.BUILD, 'extract', 'glob', 'glob_driver')
     inp = case.get('input') or case.get('case', {}).get('input') or {}
+    if inp.get('entry') == 'fuzz':
+        print('failing input of the fuzz target %s (Go corpus file format):\n%s' % (inp.get('target'), inp.get('go_fuzz_corpus_file')))
+        print('re-run: save it as harness/c17/testdata/fuzz/%s/replay and run `go test -tags verif -run %s/replay ./c17` in /verif/harness'
+              % (inp.get('target'), inp.get('target')))
+        print(case.get('impl', ''))
+        if not inp.get('pattern_hex'):
+            return
     p = os.path.join(ctx.dir, 'replay_case.json')
     json.dump({'pattern_hex': inp.get('pattern_hex', '-'), 'name_hex': inp.get('name_hex', '-'),
                'set_size': inp.get('set_size', 0), 'gomaxprocs': inp.get('gomaxprocs', 0)}, open(p, 'w'))
